@@ -61,6 +61,22 @@ def importWorkerGuard (len : Nat) : Out :=
   else if len < 2 then (if viewDataChecked then .err "too-short" else .panic "viewData[0:2]")
   else .returns
 
+/-- What `Execute` (the action machine of pql/ast.go run over the parse) ended with. -/
+inductive PanicValue
+  | none                      -- no panic
+  | nonString                 -- a runtime error (nil map, failed type assertion, index)
+  | str (msg : List Char)     -- panic(fmt.Sprintf(...))
+  deriving Repr, DecidableEq
+
+/-- The recover filter of `parser.Parse`: a non-string value and a string that starts with one of
+the listed prefixes are returned as errors, any other string is re-panicked (inside the HTTP
+handler's recovered request when the text came over the query endpoint). -/
+def parseFilter : PanicValue → Out
+  | .none => .returns
+  | .nonString => if pqlNonStringIsError then .err "unexpected-parser-error" else .panic "repanic"
+  | .str msg =>
+    if pqlFilterPrefixes.any (fun p => p.toList.isPrefixOf msg) then .err "parse" else .panic "repanic"
+
 /-- Every decoded container is consistent with its header. -/
 def entriesWf (es : List Entry) : Bool := es.all (fun e => e.c.wf e.n)
 
